@@ -101,10 +101,21 @@ def rangeIncl (lo hi : Nat) : List Nat :=
 /-- the (offset, shift) table of `OverlappingBinsFor` -/
 def baiLevels : List (Nat × Nat) := [(1, 26), (9, 23), (73, 20), (585, 17), (4681, 14)]
 
-/-- `internal.OverlappingBinsFor` -/
-def overlappingBinsFor (beg end_ : Int) : List Nat :=
+/-- the loops of `internal.OverlappingBinsFor` (the whole function before repair C04-5) -/
+def overlappingBinsForCore (beg end_ : Int) : List Nat :=
   let e := end_ - 1
   0 :: baiLevels.flatMap fun (off, sh) => rangeIncl (u32 (off + (beg >>> sh))) (u32 (off + (e >>> sh)))
+
+/-- `internal.OverlappingBinsFor`: `if end > 1<<29 { end = 1 << 29 }` (repair C04-5: nothing lies beyond
+the indexable range; without the limit the uint32 bin arithmetic wraps for `end ≥ 2^46` and the finer
+levels are lost), then the loops -/
+def overlappingBinsFor (beg end_ : Int) : List Nat :=
+  overlappingBinsForCore beg (if end_ > 536870912 then 536870912 else end_)
+
+/-- Go's `for k := lo; k <= hi; k++` over uint32 terminates iff it is not entered or `hi < 2^32-1`
+(`k++` wraps to 0 at `hi = 2^32-1` and `k <= hi` stays true): `none` = the loop never exits -/
+def goRangeIncl (lo hi : Nat) : Option (List Nat) :=
+  if lo ≤ hi ∧ hi = 4294967295 then none else some (rangeIncl lo hi)
 
 /-- `internal.IsValidIndexPos` -/
 def isValidIndexPos (i : Int) : Bool := decide (-1 ≤ i) && decide (i ≤ 536870910)
@@ -141,9 +152,39 @@ def reg2binsLoop (beg e : Int) : (n level : Nat) → (s : Int) → (t : Nat) →
     rangeIncl ((t + u32 (beg >>> s.toNat)) % 4294967296) ((t + u32 (e >>> s.toNat)) % 4294967296) ++
       reg2binsLoop beg e n (level + 1) (s - 3) ((t + shl1u32 (level * 3)) % 4294967296)
 
-/-- `csi.reg2bins` -/
-def reg2bins (beg end_ : Int) (minShift depth : Nat) : List Nat :=
+/-- the loops of `csi.reg2bins` (the whole function before repair C04-6) -/
+def reg2binsCore (beg end_ : Int) (minShift depth : Nat) : List Nat :=
   reg2binsLoop beg (end_ - 1) (depth + 1) 0 (minShift + depth * 3 : Nat) 0
+
+/-- the limits repair C04-6 puts before the loops, as in htslib: `if beg < 0 { beg = 0 }`,
+`if s < 63 && end > 1<<s { end = 1 << s }` -/
+def csiClampBeg (beg : Int) : Int := if beg < 0 then 0 else beg
+def csiClampEnd (end_ : Int) (s : Nat) : Int := if s < 63 ∧ end_ > (2 : Int) ^ s then (2 : Int) ^ s else end_
+
+/-- `csi.reg2bins`: the limits, `if beg >= end { return nil }`, then the loops -/
+def reg2bins (beg end_ : Int) (minShift depth : Nat) : List Nat :=
+  let b := csiClampBeg beg
+  let e := csiClampEnd end_ (minShift + depth * 3)
+  if b ≥ e then [] else reg2binsCore b e minShift depth
+
+/-- `reg2binsLoop` with Go's loop semantics: `none` = one of the `for i := b; i <= e; i++` loops never exits -/
+def reg2binsLoopGo (beg e : Int) : (n level : Nat) → (s : Int) → (t : Nat) → Option (List Nat)
+  | 0, _, _, _ => some []
+  | n + 1, level, s, t =>
+    match goRangeIncl ((t + u32 (beg >>> s.toNat)) % 4294967296) ((t + u32 (e >>> s.toNat)) % 4294967296) with
+    | none => none
+    | some l =>
+      (reg2binsLoopGo beg e n (level + 1) (s - 3) ((t + shl1u32 (level * 3)) % 4294967296)).map (l ++ ·)
+
+/-- the unrepaired `csi.reg2bins` with Go's loop semantics -/
+def reg2binsCoreGo (beg end_ : Int) (minShift depth : Nat) : Option (List Nat) :=
+  reg2binsLoopGo beg (end_ - 1) (depth + 1) 0 (minShift + depth * 3 : Nat) 0
+
+/-- `csi.reg2bins` with Go's loop semantics -/
+def reg2binsGo (beg end_ : Int) (minShift depth : Nat) : Option (List Nat) :=
+  let b := csiClampBeg beg
+  let e := csiClampEnd end_ (minShift + depth * 3)
+  if b ≥ e then some [] else reg2binsCoreGo b e minShift depth
 
 /-- `csi.validIndexPos` -/
 def csiValidIndexPos (i : Int) (minShift depth : Nat) : Bool :=
